@@ -60,7 +60,7 @@ def gen_jobs(tier, seed):
     n = 320 if tier == "quick" else 8000
     jobs = []
     for q in range(n):
-        shape = q % 8
+        shape = q % 10
         npos = 2 if shape == 7 else 1
         nm = rng.randint(2, 6)
         methods = []
@@ -105,13 +105,37 @@ def gen_jobs(tier, seed):
             calls = [[a, b] for a in NAMES for b in ("i0", "i2", "sa")]
             rng.shuffle(calls)
             calls = calls[:20]
+        if shape == 8:
+            # three positions: >= 4 disjoint Literal methods keyed on the first argument, some of them
+            # carrying a second dependent parameter; a third parameter keeps them in one rank
+            ints = ["im1", "i0", "i1", "i2", "i3", "i4", "i5"]
+            rng.shuffle(ints)
+            methods = []
+            for j in range(rng.choice([4, 5])):
+                twodep = rng.random() < 0.4
+                second = rand_dep(rng, 2) if twodep else cls(rng.choice([1, 2]))
+                third = cls(1) if twodep else cls(rng.choice([1, 2]))
+                methods.append({"id": f"m{j + 1}", "prio": 0, "reg": j + 1,
+                                "pos": [{"k": "lit", "bound": cls(2), "vals": [deprt.arg_record(ints[j])["v"]]}, second, third],
+                                "reqpos": 3, "kwn": [], "kwt": [], "kwreq": [], "body": "leaf"})
+            methods.append({"id": "m9", "prio": 0, "reg": 9, "pos": [cls(1), cls(1), cls(1)], "reqpos": 3, "kwn": [], "kwt": [], "kwreq": [], "body": "leaf"})
+            calls = [[a, b, "i1"] for a in ints[:6] for b in ("i0", "i2", "i5", "im1")]
+        if shape == 9:
+            # dependent / literal annotations on a keyword-only parameter
+            methods = []
+            for j in range(rng.randint(2, 4)):
+                kt = rng.choice([rand_dep(rng, 2), rand_lit(rng), rand_dep(rng, 1)])
+                methods.append({"id": f"m{j + 1}", "prio": rng.choice([0, 0, 1]), "reg": j + 1, "pos": [cls(rng.choice([1, 2]))],
+                                "reqpos": 1, "kwn": ["k"], "kwt": [kt], "kwreq": [rng.random() < 0.7], "body": rng.choice(["leaf", "next"])})
+            methods.append({"id": "m9", "prio": 0, "reg": 9, "pos": [cls(1)], "reqpos": 1, "kwn": ["k"], "kwt": [cls(1)], "kwreq": [False], "body": "leaf"})
+            calls = [{"pos": [a], "kw": {"k": b}} for a in ("i1", "sa") for b in NAMES] + [{"pos": ["i1"], "kw": {}}]
         jobs.append({"id": f"C10-{q}", "methods": methods, "calls": calls})
     return jobs
 
 
 def judged_ok(methods):
     """value_outcome is only judged when every annotation is a class, a Dependent or a Literal"""
-    return all(t["k"] in ("cls", "dep", "lit") for m in methods for t in m["pos"])
+    return all(t["k"] in ("cls", "dep", "lit") for m in methods for t in list(m["pos"]) + list(m.get("kwt", [])))
 
 
 def run(prop, tier, seed, replay=None):
